@@ -28,7 +28,10 @@ CLAIMED = {
              "the point-mass configurations bit for bit (whole global state after every commit) and every time-slice of every "
              "committed out-state of all 19 shipped + generated configurations; the property itself is evaluated by an oracle on "
              "the recorded states of those runs.",
-        note="Composite objects: chain-level claim checked by the run oracle and by C12's model, not by C07's theorems. Physics/random "
+        note="Composite objects: chain-level claim proved at the system level for composite objects without cells (JF/Props/SystemInv2.lean: c07_one_chain_closed2, "
+             "c07_chain_clause_closed2, c07_speed_conserved2 along every run of the composed loop), otherwise checked by the run oracle and by C12's model. Run families include hard disks "
+             "with cells and the sequential-direction end of chain (velocity components of both signs, cubic and non-cubic boxes), counters primed near 2^32, -vv runs and "
+             "multi-process histories. Physics/random "
              "choices (lift target, new direction, accept) are oracle inputs of the model. Trusted: Lean kernel + standard axioms, "
              "runtrace observation harness, MDAnalysis stand-in for two configurations.",
         technique="Lean 4 proof over a hand-written state-machine model + bit-exact replay of recorded real runs + run-level oracle",
@@ -47,7 +50,7 @@ CLAIMED = {
              "scheduler's minimality and sorted commit times in the composed loop). "
              "The float clause (one rounding per step, not growing with k beyond that) is measured by a Fraction oracle on the "
              "implementation and proved in the rounding-abstract reading of C14 where available. Ties between a sample time and the "
-             "end time are not judged.",
+             "end time are not judged. JF/Props/C17System.lean ties the candidates of the composed loop to the clock model: under the decidable wiring condition clockWired (decide for all 19 shipped wirings) and ClockCands (the j-th candidate of the sampling handler is clock j, the end-of-run candidate is the end time; measured bit for bit on every recorded single-process run) the k-th committed sampling event is at exactly k*interval, nothing is committed beyond the end time, the sample count at the end is samplesBeforeEnd (or that plus one at a tie, both outcomes exhibited), for every run of Sys.Reach and Sys2.Reach2. What is WRITTEN is inside the model: JF/Model/Output.lean + JF/Props/Output.lean (the four observable output handlers, base/vectors.py, the buffered writer: every inter-object pair once, invariance under translations and lattice shifts, bounds) and JF/Props/OutputFloat.lean (polarization theorems; rounding-abstract error of the written separation, _partial: sum error a parameter, cubic box); harness/outcorr.py compares the files the real classes and real runs write with the model bit for bit and judges them by a Fraction oracle. Oracle added: the sampled state is the previous configuration advanced to the sample time (also on multi-process histories).",
         technique="Lean 4 proof over a hand-written model + bit-exact differential correspondence + run-level oracle",
         ref="§5 C17"),
     "C13": dict(
@@ -226,8 +229,16 @@ CLAIMED = {
              "along the run by the joint induction of JF/Props/SystemInv2.lean (joint_inv2, c09_fresh_closed2 / c09_fresh_every_leg2: pending = fresh at every leg of "
              "every run of the five shipped dipole wirings without cells and water/single_molecule, no no-tie hypothesis; its step-relation hypotheses are measured "
              "by harness/sysinvcorr.check_trace2, modecorr and fpcorr2); "
-             "it stays a hypothesis (tables written by hand, validated on runs) for composite objects WITH a cell system. Pool sizes (clause i) are not derived: "
-             "exhaustion is an explicit error outcome in model and code and is reported by the oracle.",
+             "for composite objects WITH cell systems (the six shipped wirings: dipoles/cell_*, three water files, hard_disk_dipoles_cells) FootprintsSound is proved too "
+             "(JF/Props/Footprints3.lean over the world CW3 = two-level machine x any number of occupancies; tie: harness/fpcorr3.py on runs with the occupancies "
+             "dumped at every leg), and the joint invariant over the composed mediator loop (JF/Props/SystemInv3Loop.lean: joint_inv3, c09_fresh_closed3, c08_closed3, "
+             "c12_rootConsistent_closed3, c11_consistent_closed3, no_sample_skipped3) DERIVES the stays-in-recorded-cell premise per cell system from the pending "
+             "cell-boundary candidate, scheduler minimality and the geometry, under an explicit no-tie hypothesis (TieFree3, ties counted on runs) and positive direction of motion. "
+             "Pool sizes (last clause of C09): JF/Props/C09Pools.lean proves exact demand counts / tight bounds per tagger class and, per shipped configuration, the generated "
+             "obligation pool >= bound by decide (17 configurations; every shipped pool equals its bound); JF/Props/C09PoolsClosed.lean composes them with the joint invariants: "
+             "no_pool_exhausted_closed (coulomb_atoms, along Sys.Reach) and no_pool_exhausted_closed2 (composite objects without cells, activation-aware, dipole_motion) - "
+             "no leg can end in TagActivatorError - with no demand hypothesis; hard_disk_dipoles_cells.ini has bound 161 > pool 15 for nearby_sphere (judged physically "
+             "unreachable, DESIGN 0b), hard_disk_dipoles.ini has no kernel-checked obligation (decide too slow); harness/poolcorr.py drives the real taggers.",
         technique="Lean 4 proof over a hand-written activator model + generated decidable obligations per .ini + trace replay + run-level oracle",
         ref="§5 C09/C08, §4"),
     "C11": dict(
